@@ -19,6 +19,37 @@ static long cap_of(size_t min_capacity) { Q1 q(min_capacity); return (long)q.cap
 """
 
 
+def _norm(text):
+    """whitespace-free, comment-free source text"""
+    return re.sub(r"\s+", "", strip_comments(text))
+
+
+def _str_def(name, text):
+    return 'def %s : String := "%s"' % (name, text.replace("\\", "\\\\").replace('"', '\\"'))
+
+
+def function_text(txt, head_rx, nth=0):
+    """`template <...> ... head(...) ... { body }` of the nth definition matching head_rx: signature (parameter and
+    return types) + body"""
+    body = function_body(txt, head_rx, nth)
+    end = txt.index(body) + len(body)
+    k = -1
+    for m in re.finditer(head_rx, txt, flags=re.S):
+        j = txt.find("{", m.start())
+        semi = txt.find(";", m.start())
+        if semi != -1 and semi < j:
+            continue
+        k += 1
+        if k == nth:
+            start = txt.rfind("template", 0, m.start())
+            # the outermost of consecutive template headers
+            prev = txt.rfind("template", 0, start)
+            if prev != -1 and re.fullmatch(r"template\s*<[^{};]*>\s*", txt[prev:start]):
+                start = prev
+            return txt[start:end]
+    raise ExtractError("function text not found: " + head_rx)
+
+
 def generate():
     c = probe([H], {
         "sizeofSlot1": "sizeof(Q1::Slot)",
@@ -127,6 +158,38 @@ def generate():
     ords("deal_n_comp", function_body(txt, Qn + r"deal_n_continuously\s*\(", 1))
     ords("try_deal_n", fn(Qn + r"try_deal_n_continuously\s*\("))
     ords("timed_pop_n", fn(Qn + r"try_pop_n_exclusively_until\s*\("))
+    # whitespace-free source text (signature types + body) of every modelled function, and of the declarations that fix the
+    # 16-bit truncation: any edit — a widened parameter type, `==` turned into `>=`, a changed early return, swapped template
+    # flags at a call site, a dropped timeout refresh — breaks the `gen_src_*` obligations
+    head = resolve_ifs(H, extra=["-fsanitize=thread"])
+    m = re.search(r"class SlotFutex\s*\{.*?\n  \};", head, flags=re.S)
+    if not m:
+        raise ExtractError("SlotFutex declaration not found")
+    items.append(_str_def("src_decl_slotfutex", _norm(m.group(0))))
+    m = re.search(r"inline\s+\w+\s+push_version_for_index\s*\([^;]*;\s*inline\s+\w+\s+pop_version_for_index\s*\([^;]*;", head, flags=re.S)
+    if not m:
+        raise ExtractError("version_for_index declarations not found")
+    items.append(_str_def("src_decl_version_for_index", _norm(m.group(0))))
+    ft = lambda rx, nth=0: _norm(function_text(txt, rx, nth))
+    for name, rx, nth in [
+        ("version", SF + r"\s*version\s*\(", 0), ("wait", SF + r"\s*wait_until_reach_expected_version\s*\(", 0),
+        ("set_version", SF + r"\s*set_version\s*\(", 0), ("wakeup_waiters", SF + r"\s*wakeup_waiters\s*\(", 0),
+        ("set_version_and_wakeup", SF + r"\s*set_version_and_wakeup_waiters\s*\(", 0),
+        ("block_slow", SF + r"\s*block_until_reach_expected_version_slow\s*\(", 0),
+        ("spin_slow", SF + r"\s*spin_until_reach_expected_version_slow\s*\(", 0),
+        ("push_version_for_index", Qn + r"push_version_for_index\s*\(", 0),
+        ("pop_version_for_index", Qn + r"pop_version_for_index\s*\(", 0),
+        ("push_n", Qn + r"push_n\s*\(\s*C\s*&&\s*callback\s*,\s*size_t", 1),
+        ("pop_n", Qn + r"pop_n\s*\(\s*C\s*&&\s*callback\s*,\s*size_t", 1),
+        ("try_push_n", Qn + r"try_push_n\s*\(", 0), ("try_pop_n", Qn + r"try_pop_n\s*\(", 0),
+        ("cpush_n", Qn + r"push_n\s*\(\s*C\s*&&\s*callback\s*,\s*RC", 0), ("cpop_n", Qn + r"pop_n\s*\(\s*C\s*&&\s*callback\s*,\s*RC", 0),
+        ("timed_pop_n", Qn + r"try_pop_n_exclusively_until\s*\(", 0),
+        ("deal", Qn + r"deal\s*\(", 0), ("try_deal", Qn + r"try_deal\s*\(", 0),
+        ("deal_n", Qn + r"deal_n_continuously\s*\(", 0), ("deal_n_comp", Qn + r"deal_n_continuously\s*\(", 1),
+        ("try_deal_n", Qn + r"try_deal_n_continuously\s*\(", 0)]:
+        items.append(_str_def("src_" + name, ft(rx, nth)))
+    items.append(_str_def("src_push", _norm(last(Qn + r"push\s*\(\s*C\s*&&"))))
+    items.append(_str_def("src_pop", _norm(last(Qn + r"pop\s*\(\s*C\s*&&"))))
     # template flags at the internal call sites of the default (flag-less) overloads and of clear()
     defaults = {}
     for name in ("push", "try_push", "push_n", "pop", "try_pop", "pop_n"):
